@@ -208,29 +208,30 @@ pub fn build(d: &Desc) -> Box<dyn Ser> {
                 raw.push_bit(bit);
             }
             let n = raw.len();
+            raw.resize(n + 70, true);
+            raw.resize(n, false);
+            raw.push_bit(true);
+            raw.pop_bit();
+            // the pops come last: nothing after them may repair what they leave behind
             unsafe {
                 raw.push_int(!0u64, 64);
                 raw.push_int(0x2AAA, 13);
                 raw.pop_int(13);
                 raw.pop_int(64);
             }
-            raw.push_bit(true);
-            raw.pop_bit();
-            raw.resize(n + 70, true);
-            raw.resize(n, false);
             Box::new(raw)
         }
         Desc::IntHist { width, values } => {
             let mut v = int_vector(*width, values);
             let n = v.len();
+            v.resize(n + 3, !0u64);
+            v.resize(n, 0);
             for _ in 0..6 {
                 v.push(!0u64);
             }
             for _ in 0..6 {
                 v.pop();
             }
-            v.resize(n + 3, !0u64);
-            v.resize(n, 0);
             Box::new(v)
         }
         Desc::OptInt(o) => Box::new(o.as_ref().map(|(w, v)| int_vector(*w, v))),
